@@ -1,6 +1,8 @@
 import SqlfluffVerif.Driver.Proto
 import SqlfluffVerif.Driver.Noqa
 import SqlfluffVerif.Model.Placeholder
+import SqlfluffVerif.Model.PyFormat
+import SqlfluffVerif.Model.Jinja
 namespace SqlfluffVerif.Driver
 open SqlfluffVerif SqlfluffVerif.Proto SqlfluffVerif.Slices SqlfluffVerif.Placeholder
 
@@ -31,5 +33,7 @@ def handleSlices (toks : List String) : Option String :=
           quot := if mf.getD (4 * i + 3) 0 = 1 then some (qs.getD i []) else none }
       let r := process (natList src) ctx ms
       some s!"{showBool (spansOK (natList src).length 0 ms)} {showNatList r.1} {showTSlices r.2.1} {showNatList (r.2.2.map (·.ty))} {showNatList (r.2.2.map (·.idx))} {showNatListList (r.2.2.map (·.raw))}"
+  | ["jinja.fast", mp, m, lp, src] => some (showBool (Jinja.fastPath ⟨mp == "1", m == "1", lp == "1"⟩ (natList src)))
+  | ["py.dotrewrite", src] => some (showNatList (PyFormat.dotRewrite (natList src)))
   | _ => none
 end SqlfluffVerif.Driver
